@@ -15,7 +15,7 @@ from ..catalog import KINDS, kinds_with
 from ..seams import quiet
 
 PROP = 'C04'
-TIERS = {'quick': 1600, 'thorough': 40000}
+TIERS = {'quick': 4800, 'thorough': 40000}
 RULE = ('each run: one seeded netlist (5-150 leaves, hierarchy 0-3, fan-out, reconvergence, registers between '
         'stages) built in a PRNG-chosen instantiation order, stepped with seeded vectors under faults; '
         'non-trivial = the unsorted leaf list was not already a valid order (sorter had to repair) or a fault fired; '
